@@ -67,7 +67,7 @@ def gen_plan(base_seed, i, tier):
         }
         if rng.random() < 0.35 and s < nsteps - 1:
             step["crash_frac"] = rng.choice([-1, 0.0, 1.0, "W-1", "1", round(rng.random(), 4), round(rng.random(), 4),
-                                             "op:%.3f" % rng.random(), "op:%.3f" % rng.random(), "op:0.999"])
+                                             "op:%.3f" % rng.random(), "op:%.3f" % rng.random(), "op:0.999", "wc:%.3f" % rng.random(), "wc:%.3f" % rng.random()])
         elif rng.random() < 0.1 and s < nsteps - 1:
             step["enospc_frac"] = round(rng.random(), 3)
         steps.append(step)
@@ -195,15 +195,18 @@ def execute(plan):
         kw = {}
         if "crash_frac" in step or "enospc_frac" in step:
             snap = dict(FS.files), set(FS.dirs)
-            dry = _run(rows, cfg, step["sched_seed"], cache=True, crash_op=10 ** 9)
+            dry = _run(rows, cfg, step["sched_seed"], cache=True, crash_op=10 ** 9, crash_wcall=10 ** 9)
             out["runs"] += 1
             W = dry.get("bytes_written", 0)
             nops = dry.get("fs_ops") or 0
+            nwc = dry.get("fs_write_calls") or 0
             FS.files.clear(); FS.files.update(snap[0]); FS.dirs.clear(); FS.dirs.update(snap[1])
             if W > 0:
                 if isinstance(step.get("crash_frac"), str) and step["crash_frac"].startswith("op:"):
                     # killed just before the k-th mutating file-system operation (open, close, rename, ...)
                     kw["crash_op"] = min(int(float(step["crash_frac"][3:]) * nops), max(nops - 1, 0))
+                elif isinstance(step.get("crash_frac"), str) and step["crash_frac"].startswith("wc:"):
+                    kw["crash_wcall"] = min(int(float(step["crash_frac"][3:]) * nwc), max(nwc - 1, 0))
                 elif "crash_frac" in step:
                     kw["crash_after"], kw["crash_open"] = _crash_budget(step["crash_frac"], W)
                     if kw["crash_open"] is not None:
@@ -211,7 +214,7 @@ def execute(plan):
                 else:
                     kw["enospc_after"] = int(step["enospc_frac"] * W)
         if "crash_abs" in step:
-            kw = {{"open": "crash_open", "op": "crash_op"}.get(step["crash_abs"][0], "crash_after"): step["crash_abs"][1]}
+            kw = {{"open": "crash_open", "op": "crash_op", "wcall": "crash_wcall"}.get(step["crash_abs"][0], "crash_after"): step["crash_abs"][1]}
         res = _run(rows, cfg, step["sched_seed"], cache=True, **kw)
         out["runs"] += 1
         out["summary"].append(common.run_summary(res))
@@ -242,18 +245,20 @@ def execute_enum(plan):
     out = {"violations": [], "nontrivial": None, "summary": [], "runs": 0}
     ref = uncached(rows, cfg, seed)
     FS.files.clear(); FS.dirs.clear()
-    dry = _run(rows, cfg, seed, cache=True, crash_op=10 ** 9)
+    dry = _run(rows, cfg, seed, cache=True, crash_op=10 ** 9, crash_wcall=10 ** 9)
     W = dry.get("bytes_written", 0)
+    nwc = dry.get("fs_write_calls") or 0
     ch, nch = plan["chunk"]
     stride = plan.get("stride", 1)
-    points = [("op", k) for k in range(dry.get("fs_ops") or 0)] + [("byte", n) for n in sorted(set(list(range(0, W + 1, stride)) + [1, W - 1, W]))]
+    wstep = 1 if (stride == 1 or nwc <= 48) else (nwc + 47) // 48
+    points = [("op", k) for k in range(dry.get("fs_ops") or 0)] + [("wcall", k) for k in range(0, nwc, wstep)] + [("byte", n) for n in sorted(set(list(range(0, W + 1, stride)) + [1, W - 1, W]))]
     nontriv = []
     vs = []
     for pi, (kind, n) in enumerate(points):
         if pi % nch != ch:
             continue
         FS.files.clear(); FS.dirs.clear()
-        kw = {"crash_op": n} if kind == "op" else {"crash_after": n}
+        kw = {"crash_op": n} if kind == "op" else ({"crash_wcall": n} if kind == "wcall" else {"crash_after": n})
         r1 = _run(rows, cfg, seed, cache=True, **kw)
         out["runs"] += 1
         out["summary"].append(common.run_summary(r1))
